@@ -253,7 +253,40 @@ def r3(ctx):
         ctx.check(disp.get(v) and disp.get(v) == parse.get(v), "C15.R3", d.path, "tag-agreement.%s" % v,
                   "Display writes %s for %s, FromStr maps %s to it" % (sorted(disp.get(v, [])), v, sorted(parse.get(v, []))), d.sp)
     ctx.check(enc_disp and enc_disp == enc_parse, "C15.R3", d.path, "encoding-tag-agreement", "Display encodings %s, FromStr encodings %s" % (sorted(enc_disp), sorted(enc_parse)), d.sp)
-    ctx.floor("C15.R3", 3)
+    # Display and FromStr evaluated (K6' with concrete strings) and composed: parse(display(x)) == x on sample filters
+    # (payloads with ':' inside, empty, non-UTF-8), malformed texts are errors
+    from . import feval as E, strs
+    DISP, FROM = d.path, fs.path
+    bad = []
+    n = 0
+    for var in fadt:
+        for payload in ("str:abc", "str:", "str:chat:room:42", "str::", "str:a:", "bytes:ff003a", "bytes:80"):
+            n += 1
+            out = []
+            orc = strs.make_oracle(f, out)
+            try:
+                ret, hp, ev = E.run(f, DISP, [E.href("self"), E.href("fmt")], {"self": E.variant(f, "store::FilterKind", var, E.Tok(payload)), "fmt": E.Tok("formatter")}, orc)
+                text = "".join(out)
+                if E.describe(ret, f) != "Ok(())":
+                    bad.append("%s(%s): Display returns %s" % (var, payload, E.describe(ret, f)))
+                    continue
+                ret2, hp, ev = E.run(f, FROM, [strs.S(text)], {}, strs.make_oracle(f, []))
+                got = E.describe(ret2, f)
+                want = "Ok(%s(%s))" % (var, payload)
+                if got != want:
+                    bad.append("%s(%s) is written as %r, which parses to %s" % (var, payload, text, got))
+            except E.Unsupported as e:
+                bad.append("%s(%s): UNSUPPORTED-FORM: %s" % (var, payload, e))
+    for text in ("prefix", "prefix:utf8", "bogus:utf8:x", "prefix:b64:x", "exact:hex:zz", ""):
+        n += 1
+        try:
+            ret2, hp, ev = E.run(f, FROM, [strs.S(text)], {}, strs.make_oracle(f, []))
+            if not E.describe(ret2, f).startswith("Err"):
+                bad.append("malformed %r parses to %s" % (text, E.describe(ret2, f)))
+        except E.Unsupported as e:
+            bad.append("%r: UNSUPPORTED-FORM: %s" % (text, e))
+    ctx.check(not bad, "C15.R3", fs.path, "text-round-trip", "Display then FromStr evaluated on %d samples; deviating: %s; spec: every filter parses back to itself, malformed text is an error" % (n, bad[:4]), fs.sp)
+    ctx.floor("C15.R3", 4)
 
 
 def run(ctx):
